@@ -500,7 +500,14 @@ pub fn gen_codec(rng: &mut Rng, heavy_ok: bool) -> Codec {
 			_ => *rng.pick(&[1u8, 3, 19, 22]),
 		}),
 		9 | 10 => Codec::Bzip2(if rng.bool() { 0 } else { 1 + rng.below(9) as u8 }),
-		_ => Codec::Xz(if rng.bool() { 0 } else { 1 + rng.below(6) as u8 }),
+		// presets 7-9 cost 0.2-0.7 GiB of encoder memory per block: rare
+		_ => Codec::Xz(if rng.bool() {
+			0
+		} else if rng.chance(1, 12) {
+			7 + rng.below(3) as u8
+		} else {
+			1 + rng.below(6) as u8
+		}),
 	}
 }
 
@@ -521,7 +528,8 @@ pub fn gen_user_meta(rng: &mut Rng) -> Vec<(String, Vec<u8>)> {
 			0 => format!("user.k{i}"),
 			1 => format!("k{i}é"),
 			2 => format!("{i}"),
-			_ => format!("avro.custom{i}"),
+			// (keys starting with "avro." are reserved by the specification: never generated)
+			_ => format!("x-avro.custom{i}"),
 		};
 		let v = match rng.below(4) {
 			0 => vec![],
